@@ -8,9 +8,9 @@ CHECKS = {
  "C02": ("bounded symbolic execution (z3) of _find_prototypes/fit; MST cycle-property and Kruskal-uniqueness oracles",
          "for every symmetric weight matrix (all tie patterns, and the all-distinct case) and label pattern with n<=4 / n<=5", "4 C02"),
  "C03": ("bounded symbolic execution (z3) of fit followed by predict on symbolic query distance vectors; exhaustive-minimiser oracle",
-         "for every training set with n<=4 / n<=5 and batches of 1-2 queries, both weight branches, supervised and semi-supervised", "4 C03"),
+         "end-to-end: every training set with n<=4 / n<=5 and batches of 1-2 queries, both weight branches, supervised and semi-supervised; state-injected: arbitrary forests with n<=5 / n<=7 nodes", "4 C03"),
  "C04": ("bounded symbolic execution (z3) of fit+predict(X_train) under tie-free weights; KNN part: symbolic clustering with force_prototype",
-         "supervised: n<=4 / n<=5; KNN-supervised: see evidence bounds", "4 C04"),
+         "supervised: n<=4 / n<=5; KNN-supervised: forced clustering from an arbitrary clean graph state (n<=4 / n<=5) and the real fit end to end on a symbolic distance table (n=3 / n<=4)", "4 C04"),
  "C05": ("bounded symbolic execution (z3) of the real Heap: inductive step from an arbitrary invariant-satisfying symbolic state per operation, base case, and bounded operation histories with a ghost set",
          "inductive: every capacity 1..7 (quick) / 1..15 (thorough), both policies, every fill level, every operation with symbolic arguments => histories of any length for those capacities; nothing claimed for larger capacities", "4 C05"),
  "C11": ("bounded symbolic execution (z3) of paired fits: adjacent transpositions of the training order and order-isomorphic weight matrices, tie-free inputs",
@@ -24,7 +24,7 @@ CHECKS = {
  "C12": ("bounded symbolic execution (z3) of KNNSubgraph.create_arcs (also after an earlier call), calculate_pdf (exp uninterpreted) and eliminate_maxima_height against declarative post-conditions",
          "create_arcs n<=3 k<=4, n=4 k=1 (quick) / n=4 k<=5 (thorough); pdf n<=4/5", "4 C12"),
  "C13": ("bounded symbolic execution (z3) of both _clustering implementations and propagate_labels from an arbitrary clean k-NN graph state (symbolic densities with ties, every neighbour choice)",
-         "n<=3 all k, n=4 k=1 (quick) / n=4 k<=3, n=5 k=1 (thorough)", "4 C13"),
+         "unit: n<=3 all k, n=4 k=1 (quick) / n=4 k<=3, n=5 k=1 (thorough); end to end: real fit on n=3 (quick) / n<=4 (thorough) symbolic tables", "4 C13"),
  "C14": ("bounded symbolic execution (z3) of KNNSupervisedOPF.predict / UnsupervisedOPF.predict from an injected symbolic fitted state against the exhaustive k-nearest max-min rule (exp uninterpreted)",
          "n<=4, k<=2 (quick) / n<=5, k<=3 (thorough)", "4 C14"),
  "C16": ("bounded symbolic execution (z3) of the k-selection loops with the criterion replaced by a nondeterministic stub (over-approximates every data set)",
@@ -56,8 +56,9 @@ def main():
             replay_cmd_template="./check %s --replay {path}" % pid,
             engine="symx",
             level_claimed=dict(category="model_checking", text=text, design_ref="DESIGN.md section " + ref),
-            level_note="trusted base: symx numpy/math model (validated per run by replaying path witnesses on the real "
-                       "package), z3 5.1.0; weights are mathematical reals (exact for compare/max/min/copy); bounds as in evidence",
+            level_note="trusted base: symx numpy/math/file model (validated per run by replaying path witnesses, and for "
+                       "C01/C04/C06/C13 whole concrete runs on the repository's data, on the real package), z3 5.1.0; reals instead of "
+                       "floats where stated; an exhausted budget or an `unknown` answer sets exhaustive=false and is never counted as success",
             technique=tech))
     man = dict(
         version=1,
